@@ -46,26 +46,55 @@ def _map_class(arg: ast.AST) -> str:
     return "Psbt"
 
 
+def _merge_helpers(ctx: Ctx) -> dict[str, str]:
+    """The per-field merge helpers, found by what they do and not by name:
+    module functions (map, out, key) that getattr(map, key) and setattr(out,
+    key, ...). kind 'optional' when every test is an `is None` test (presence
+    is not-None), else 'truthy'."""
+    out = {}
+    for name, f in ctx.module(P).functions.items():
+        ps = f.params()
+        if len(ps) != 3 or "." in name:
+            continue
+        gets = [n for n in own_nodes(f.node) if isinstance(n, ast.Call) and norm(n.func) == "getattr" and len(n.args) >= 2 and norm(n.args[1]) == ps[2]]
+        sets = [n for n in own_nodes(f.node) if isinstance(n, ast.Call) and norm(n.func) == "setattr" and len(n.args) == 3 and norm(n.args[1]) == ps[2]]
+        if not gets or not sets:
+            continue
+        tests = [n.ast for n in ctx.cfg(f).nodes if n.kind == "test"]
+        is_none = [isinstance(t, ast.Compare) and len(t.ops) == 1 and isinstance(t.ops[0], (ast.Is, ast.IsNot))
+                   and isinstance(t.comparators[0], ast.Constant) and t.comparators[0].value is None for t in tests]
+        out[f.qualname] = "optional" if tests and all(is_none) else "truthy"
+    if len(out) < 2 or set(out.values()) != {"optional", "truthy"}:
+        raise AnalysisError(f"psbt merge helpers not recognised: {out}")
+    return out
+
+
 def _combine_calls(ctx: Ctx):
+    from sa.effects import Effects
     fi = ctx.func(f"{P}.combine")
-    out = []  # (cls, field, helper, call)
+    helpers = _merge_helpers(ctx)
+    eff = Effects(ctx)
+    out = []  # (cls, field, helper kind / name, call)
     for c in sorted((n for n in own_nodes(fi.node) if isinstance(n, ast.Call)), key=lambda c: c.lineno):
-        nm = call_name(c)
-        if nm in ("_combine_field", "_combine_optional_field") and len(c.args) == 3:
+        q = ctx.resolve_call(fi, c)
+        if q in helpers and len(c.args) == 3:
             key = c.args[2]
             if isinstance(key, ast.Constant) and isinstance(key.value, str):
-                out.append((_map_class(c.args[0]), key.value, nm, c))
+                out.append((_map_class(c.args[0]), key.value, helpers[q], c))
             else:
                 raise AnalysisError(f"combine: non-literal field key {norm(key)}")
-        elif nm.startswith("_combine_") and nm not in ("_combine_field", "_combine_optional_field") and len(c.args) >= 2:
-            helper = ctx.prog.functions.get(f"{P}.{nm}")
-            if helper is None:
+        elif q in ctx.prog.functions and q.startswith(P + ".") and len(c.args) >= 2 and isinstance(parent(c), ast.Expr):
+            # a helper with its own rule (musig2 participants): a module function
+            # called for effect that writes into its second map
+            helper = ctx.prog.functions[q]
+            ps = helper.params()
+            if len(ps) < 2 or ps[1] not in eff.summary(helper).mutated:
                 continue
-            p0 = helper.params()[0]
+            p0 = ps[0]
             fields = {n.attr for n in own_nodes(helper.node) if isinstance(n, ast.Attribute)
                       and isinstance(n.value, ast.Name) and n.value.id == p0}
             for f in sorted(fields):
-                out.append((_map_class(c.args[0]), f, nm, c))
+                out.append((_map_class(c.args[0]), f, q.rsplit(".", 1)[1], c))
     return fi, out
 
 
@@ -136,24 +165,29 @@ def rule_merge_rule(ctx: Ctx, rep: Report) -> None:
         for cn, f, helper, c in calls:
             if cn != cname or f not in need:
                 continue
-            rep.ob(rule, f"{cname}.{f}", helper == "_combine_optional_field", fi.where(c),
-                   f"present-iff-not-None field merged by {helper}" + ("" if helper == "_combine_optional_field" else
-                                                                       ": a zero / empty value of one operand is dropped"))
+            rep.ob(rule, f"{cname}.{f}", helper == "optional", fi.where(c),
+                   f"present-iff-not-None field merged by the {helper} helper" + ("" if helper == "optional" else
+                                                                                   ": a zero / empty value of one operand is dropped"))
     rep.floor(rule, 5)
-    # the two helpers themselves: optional = `is None` tests, never overwrite a present value
-    opt = ctx.func(f"{P}._combine_optional_field")
-    tests = [norm(n.ast) for n in ctx.cfg(opt).nodes if n.kind == "test"]
-    rep.ob(rule, "_combine_optional_field.tests", len(tests) >= 2 and all("is None" in t for t in tests), opt.where(), f"tests {tests}")
-    cf = ctx.func(f"{P}._combine_field")
-    g = ctx.cfg(cf)
-    sets = [n for n in own_nodes(cf.node) if isinstance(n, ast.Call) and norm(n.func) == "setattr"]
-    ok = bool(sets)
-    for s in sets:
-        facts = g.facts_at_ast(s)
-        ok &= any(pol is False and txt in ("attr",) for txt, pol in facts) or any("attr" in txt and not pol for txt, pol in facts)
-    rep.ob(rule, "_combine_field.keeps_present", ok, cf.where(), "setattr(out, ...) only where out's value is empty")
-    upd = [n for n in own_nodes(cf.node) if isinstance(n, ast.Call) and call_name(n) == "update"]
-    rep.ob(rule, "_combine_field.union", bool(upd), cf.where(), "map fields are merged by update (union of the pairs)")
+    # the two helpers themselves never overwrite a present value; maps are merged by union
+    helpers = _merge_helpers(ctx)
+    for q, kind in sorted(helpers.items()):
+        cf = ctx.func(q)
+        g = ctx.cfg(cf)
+        po = cf.params()[1]
+        sets = [n for n in own_nodes(cf.node) if isinstance(n, ast.Call) and norm(n.func) == "setattr"]
+        ok = bool(sets)
+        for s_ in sets:
+            facts = g.facts_at_ast(s_)
+            # guarded by a test of out's own value: `attr` (a local holding getattr(out, key)) falsy, or getattr(out, key) is None
+            locs = {norm(a.targets[0]) for a in own_nodes(cf.node) if isinstance(a, ast.Assign) and isinstance(a.value, ast.Call)
+                    and norm(a.value.func) == "getattr" and a.value.args and norm(a.value.args[0]) == po}
+            ok &= any((txt in locs and pol is False) or (f"getattr({po}," in txt and ((" is None" in txt and pol) or (" is not None" in txt and not pol) or (txt.startswith("getattr(") and txt.endswith(")") and not pol)))
+                      for txt, pol in facts)
+        rep.ob(rule, f"{kind}_helper.keeps_present", ok, cf.where(), "setattr(out, ...) only where out's own value is absent")
+        if kind == "truthy":
+            upd = [n for n in own_nodes(cf.node) if isinstance(n, ast.Call) and call_name(n) == "update"]
+            rep.ob(rule, "truthy_helper.union", bool(upd), cf.where(), "map fields are merged by update (union of the pairs)")
 
 
 def _for_headers(g, n_id: int) -> list[int]:
